@@ -6,6 +6,7 @@ package commands
 
 import (
 	"encoding/xml"
+	"errors"
 
 	"mellium.im/xmlstream"
 	"mellium.im/xmpp/stanza"
@@ -86,4 +87,40 @@ func (r Response) WriteXML(w xmlstream.TokenWriter) (n int, err error) {
 func (r Response) MarshalXML(e *xml.Encoder, _ xml.StartElement) error {
 	_, err := r.WriteXML(e)
 	return err
+}
+
+// UnmarshalXML implements xml.Unmarshaler.
+// The node, session ID and status are attributes of the command payload, not
+// of the IQ stanza that carries it.
+func (r *Response) UnmarshalXML(d *xml.Decoder, start xml.StartElement) error {
+	iq, err := stanza.NewIQ(start)
+	if err != nil {
+		return err
+	}
+	found := false
+	for {
+		tok, err := d.Token()
+		if err != nil {
+			return err
+		}
+		switch t := tok.(type) {
+		case xml.StartElement:
+			if !found && t.Name.Local == "command" && t.Name.Space == NS {
+				resp, err := respFromStart(t, iq)
+				if err != nil {
+					return err
+				}
+				*r = resp
+				found = true
+			}
+			if err = d.Skip(); err != nil {
+				return err
+			}
+		case xml.EndElement:
+			if !found {
+				return errors.New("commands: unexpected response to command")
+			}
+			return nil
+		}
+	}
 }
